@@ -181,14 +181,30 @@ Definition get_item_index (items : list string) (it : string) : option nat := in
 Inductive batch (B : Type) := BBare (b : B) | BTuple (l : list B).
 Arguments BBare {B}. Arguments BTuple {B}.
 
-(* None = AssertionError / ValueError / IndexError *)
-Definition get_item {B} (items : list string) (it : string) (b : batch B) : option B :=
-  match b with
-  | BBare x => if Nat.eqb (List.length items) 1 then Some x else None
-  | BTuple l => match get_item_index items it with
-                | None => None
-                | Some i => nth_error l i
-                end
+(* items = mode.split(" "); len(items) == 1 decides "single item" -- by the MODE, not by the type of the batch:
+   None = several-item mode; Some ok = single-item mode, ok = `items[0] == item` (asserted) *)
+Definition single_item (items : list string) (it : string) : option bool :=
+  match items with
+  | [s] => Some (String.eqb s it)
+  | _ => None
+  end.
+
+(* get_item; None = AssertionError / ValueError / IndexError.
+     if len(items) == 1: assert items[0] == item; return batch          (the batch IS the item, whatever its type --
+                                                                          a multi-view item is a list of views)
+     assert isinstance(batch, (list, tuple)); return batch[items.index(item)]
+   what is returned is a batch-shaped object (the batch itself) or one element *)
+Definition get_item {B} (items : list string) (it : string) (b : batch B) : option (batch B) :=
+  match single_item items it with
+  | Some ok => if ok then Some b else None
+  | None =>
+      match b with
+      | BBare _ => None
+      | BTuple l => match get_item_index items it with
+                    | None => None
+                    | Some i => option_map BBare (nth_error l i)
+                    end
+      end
   end.
 
 Fixpoint replace_at {B} (k i : nat) (v : B) (l : list B) : list B :=
@@ -197,15 +213,21 @@ Fixpoint replace_at {B} (k i : nat) (v : B) (l : list B) : list B :=
   | x :: r => (if Nat.eqb k i then v else x) :: replace_at (S k) i v r
   end.
 
-(* tuple(it if i != idx else value for i, it in enumerate(batch)); the bare branch is
-   the repaired one (fixes/C10_set_item_single.patch) *)
+(* set_item:
+     if len(items) == 1: assert items[0] == item; return value
+     assert isinstance(batch, (list, tuple)); idx = items.index(item)
+     return tuple(it if i != idx else value for i, it in enumerate(batch)) *)
 Definition set_item {B} (items : list string) (it : string) (b : batch B) (v : B) : option (batch B) :=
-  match b with
-  | BBare _ => if Nat.eqb (List.length items) 1 then Some (BBare v) else None
-  | BTuple l => match index_of String.eqb it items with
-                | None => None
-                | Some i => Some (BTuple (replace_at 0 i v l))
-                end
+  match single_item items it with
+  | Some ok => if ok then Some (BBare v) else None
+  | None =>
+      match b with
+      | BBare _ => None
+      | BTuple l => match index_of String.eqb it items with
+                    | None => None
+                    | Some i => Some (BTuple (replace_at 0 i v l))
+                    end
+      end
   end.
 
 Section Model.
